@@ -97,6 +97,10 @@ def run(ctx):
     _check_prediction(ctx, prog.func("mokapot.model.Model.decision_function"),
                       fit)
     _check_label_thresholds(ctx, fit)
+    # what "positive" means: +1 iff target with q <= threshold, from the
+    # scores as given (shared clause with C01)
+    from .c01 import _check_update_labels
+    _check_update_labels(ctx)
 
 
 def _check_label_thresholds(ctx, fit):
